@@ -5,6 +5,7 @@ double), the order/market stream delivery, sleeps and the clock."""
 import datetime as _dt_mod
 import io
 import json
+import queue
 import sys
 import threading
 import traceback
@@ -33,6 +34,7 @@ def _load():
     from flumine.streams.orderstream import OrderStream
     from flumine.streams.marketstream import MarketStream
     from flumine.streams.datastream import DataStream
+    from flumine.streams.sportsdatastream import SportsDataStream
     from flumine.controls.tradingcontrols import ExecutionValidation
     import flumine.baseflumine as baseflumine_mod
 
@@ -203,7 +205,16 @@ class SimQueue:
         self.q.append(event)
 
     def get(self, *a, **k):
-        return self.sim.next_event()
+        try:
+            return self.sim.next_event()
+        except core.SimulationAbort:
+            raise
+        except Exception as e:
+            # an exception whose innermost frame is harness code is a harness error, never a SUT crash
+            tb = traceback.extract_tb(e.__traceback__)
+            if tb and "/simkit/" in tb[-1].filename and not self.sim.harness_error:
+                self.sim.harness_error = "scheduler: %s: %s at %s:%d" % (type(e).__name__, e, tb[-1].filename.rsplit("/", 1)[-1], tb[-1].lineno)
+            raise
 
     def qsize(self):
         return len(self.q)
@@ -1030,6 +1041,19 @@ class LiveRun:
             d2 = json.loads(line)
             d2["id"] = ds.stream_id
             ds._listener.on_data(json.dumps(d2))
+        if self.sports_stream is not None and upd.get("rcm"):
+            # race (sports data) update for this market through the real bflw race stream/cache
+            ss = self.sports_stream
+            rids = [r["id"] if isinstance(r, dict) else r for r in m["runners"]]
+            rc = {"mid": mid, "id": "%s.1200" % m.get("event_id", "1"), "rpc": {"ft": upd["pt"], "g": "1f", "st": 1.0, "rt": 2.0, "spd": 17.0, "prg": float(upd["rcm"]), "ord": rids}, "rrc": [{"ft": upd["pt"], "id": r, "long": 0.1, "lat": 0.2, "spd": 17.0, "prg": float(upd["rcm"]), "sfq": 2.1} for r in rids[:2]]}
+            ss._listener.on_data(json.dumps({"op": "rcm", "id": ss.stream_id, "clk": "r%d" % j, "pt": upd["pt"], "rc": [rc]}))
+            try:
+                while True:
+                    races = ss._output_queue.get_nowait()
+                    self.fw.handler_queue.put(_F["events"].SportsDataEvent(races))
+                    self.res.probes["live.sports_data_delivered"] += 1
+            except queue.Empty:
+                pass
         # scenario-defined custom events (C13): a callback that may raise
         self.n_mcm = getattr(self, "n_mcm", 0) + 1
         for ce in self.scenario.get("custom_events") or ():
@@ -1122,6 +1146,7 @@ class LiveRun:
                 spec,
                 market_filter={} if ss.get("empty_filter") else {"marketIds": [m["id"] for m in sc["markets"]]},
                 stream_class=(F["DataStream"] if ss.get("data_stream") else F["MarketStream"]),
+                sports_data_filter=(["raceSubscription"] if ss.get("sports") else None),
                 name=ss["name"],
                 max_order_exposure=ss.get("max_order_exposure", 1000),
                 max_selection_exposure=ss.get("max_selection_exposure", 10000),
@@ -1136,6 +1161,7 @@ class LiveRun:
         self.order_stream = None
         self.need_image = {m["id"]: True for m in sc["markets"]}
         self.data_streams = []
+        self.sports_stream = None
         for s in fw.streams:
             if isinstance(s, F["OrderStream"]):
                 self.order_stream = s
@@ -1143,6 +1169,10 @@ class LiveRun:
                 s._stream.running = not cfg.get("order_stream_down", False)
                 self.order_stream_id = s.stream_id
                 s._listener.register_stream(s.stream_id, "orderSubscription")
+            elif isinstance(s, F["SportsDataStream"]):
+                s._stream = StubStream()
+                s._listener.register_stream(s.stream_id, "raceSubscription")
+                self.sports_stream = s
             elif isinstance(s, F["DataStream"]):
                 s._stream = StubStream()
                 s._listener.register_stream(s.stream_id, "marketSubscription")
